@@ -148,6 +148,37 @@ func Run(rep *report.Report, tier string) {
 		wg.Wait()
 	}
 	rt.MapOrder = 0
+	// once more with the second network instance created late (ascending map order)
+	lateVRF = true
+	{
+		var wg sync.WaitGroup
+		ch := make(chan job)
+		for w := 0; w < 16; w++ {
+			wg.Add(1)
+			go func() {
+				defer wg.Done()
+				for j := range ch {
+					name := fmt.Sprintf("rib=%s target=%s election=%s learnt=%v network-instance-created-late", catalogue[j.ci].name, targets[j.ti].name, els[j.ei].name, learnt[j.li])
+					rep.Guard(name, map[string]any{"case": name}, func() {
+						oc, fails := one(j.ci, targets[j.ti], els[j.ei], learnt[j.li])
+						mu.Lock()
+						outcomes[oc]++
+						mu.Unlock()
+						for _, f := range fails {
+							rep.Violate(f[0], name+": "+f[1], map[string]any{"case": name})
+						}
+					})
+				}
+			}()
+		}
+		for _, j := range jobs {
+			ch <- j
+		}
+		close(ch)
+		wg.Wait()
+	}
+	lateVRF = false
+	orders = append(orders, -1) // (counted as one more pass below)
 	rep.Set("states", len(orders)*len(jobs))
 	rep.Set("transitions", len(orders)*len(jobs))
 	rep.Set("traces_validated_against_impl", len(orders)*len(jobs))
@@ -161,9 +192,31 @@ func Run(rep *report.Report, tier string) {
 	rep.Sample(map[string]any{"rib": catalogue[3].name, "target": V, "election": "id(0,1)", "learnt": "(1,1)"})
 }
 
-func build(ci int, learnt *sesshist.ID) (*server.Server, error) {
-	s, err := server.New(server.WithVRFs([]string{V}))
-	if err != nil {
+// lateVRF (set per pass by Run): the second network instance is created with Server.AddNetworkInstance only after the
+// server has already served a Flush and a Get of ALL network instances - whatever the server or the RIB memoised about
+// the set of instances by then must not hide the later one.
+var lateVRF bool
+
+func build(ci int, learnt *sesshist.ID) (*server.Server, error) { return buildX(ci, learnt, lateVRF) }
+
+func buildX(ci int, learnt *sesshist.ID, late bool) (*server.Server, error) {
+	var s *server.Server
+	var err error
+	if late {
+		if s, err = server.New(); err != nil {
+			return nil, err
+		}
+		if _, err := s.Flush(context.Background(), &spb.FlushRequest{NetworkInstance: &spb.FlushRequest_All{All: &spb.Empty{}}, Election: &spb.FlushRequest_Override{Override: &spb.Empty{}}}); err != nil {
+			return nil, fmt.Errorf("flush of the empty server: %v", err)
+		}
+		_ = s.VerifRIB().KnownNetworkInstances()
+		if _, err := s.VerifRIB().RIBContents(); err != nil {
+			return nil, err
+		}
+		if err := s.AddNetworkInstance(V); err != nil {
+			return nil, err
+		}
+	} else if s, err = server.New(server.WithVRFs([]string{V})); err != nil {
 		return nil, err
 	}
 	for i, st := range catalogue[ci].steps {
@@ -380,6 +433,13 @@ func keys(m map[codes.Code]bool) []string {
 func CatalogueSize() int { return len(catalogue) }
 
 // BuildCatalogue builds catalogue entry i on a fresh server.
+// BuildCatalogueLate is BuildCatalogue with the second network instance created after the server served its first
+// requests over all instances.
+func BuildCatalogueLate(i int) (*server.Server, string, error) {
+	s, err := buildX(i, nil, true)
+	return s, catalogue[i].name + "/network-instance-created-late", err
+}
+
 func BuildCatalogue(i int) (*server.Server, string, error) {
 	s, err := build(i, nil)
 	return s, catalogue[i].name, err
